@@ -6,8 +6,12 @@ import hv
 from hv import Case
 
 SPEC = {
-    "lean_modules": ["Honeycomb.Props.C06"],
-    "required_theorems": ["C06_error_leaves_map_unchanged", "C06_log_error_leaves_map_unchanged"],
+    "lean_modules": ["Honeycomb.Props.C06", "Honeycomb.Props.C04Gen"],
+    # Gen/AttrMoves.lean is re-translated from attributes/collections.rs before every build
+    "gen": ["attrs"],
+    "required_theorems": [
+        # Props/C04Gen.lean: the translated AttrSparseVec::merge / split ARE the model's mergeS / splitS (program equality)
+        "C04_gen_merge_dispatch", "C04_gen_split_dispatch", "C04_gen_mergeS", "C04_gen_splitS","C06_error_leaves_map_unchanged", "C06_log_error_leaves_map_unchanged"],
     "trusted_base": [
         "Lean 4.33 kernel; axioms propext, Classical.choice, Quot.sound only",
         "model of fast-stm's Transaction::read/write/commit-on-Ok (Honeycomb/Model/Stm.lean: execLog, atomicallyLog) — hand-written after "
